@@ -370,6 +370,9 @@ func randInt64(r *rand.Rand) int64 {
 	if r.Intn(200) == 0 {
 		v = -math.MaxInt64
 	}
+	if r.Intn(200) == 0 {
+		v = math.MinInt64 // written as its decimal text since the fix of Amount.String
+	}
 	return v
 }
 
@@ -410,7 +413,8 @@ func printerCorrespondence(c *core.Ctx) {
 	for i := 0; i < n; i++ {
 		v, e := randInt64(r), uint32(r.Intn(19))
 		pcs = append(pcs, pc{fmt.Sprintf("amt %d %d", v, e), "t " + core.Hex(num.MakeAmount(v, e).String()), "Amount.String"})
-		// percentages inside the magnitude domain of the float model (C05)
+		// percentages small enough for value*100 to be an int64 (Percentage.Amount rescales
+		// up unchecked when there are fewer than two decimals)
 		pv, pe := randInt64(r)>>uint(24+r.Intn(30)), uint32(r.Intn(9))
 		pcs = append(pcs, pc{fmt.Sprintf("pct %d %d", pv, pe), "t " + core.Hex(num.MakePercentage(pv, pe).String()), "Percentage.String"})
 		y, m, d := r.Intn(10000), r.Intn(14), r.Intn(33)
